@@ -346,7 +346,7 @@ def main(argv=None):
 			known_lines.append(line)
 		replay_paths = []
 		seen_kinds = {}
-		new.sort(key=lambda v: len(jdump(v['case'])))     # simplest counterexample first
+		new.sort(key=getattr(mod, 'violation_key', lambda v: len(jdump(v['case']))))     # simplest counterexample first
 		for v in new:
 			# one replay file per distinct kind (first = simplest by enumeration order), at most 5
 			k = v['kind']
